@@ -112,7 +112,7 @@ func FromDefaultLabels(hosts RegistryHosts) GetSources {
 				}
 				if d.String() != target.String() {
 					desc := ocispec.Descriptor{Digest: d}
-					if urls, ok := labels[targetImageURLsLabelPrefix+fmt.Sprintf("%d", i)]; ok {
+					if urls, ok := labels[targetImageURLsLabelPrefix+fmt.Sprintf("%d", i)]; ok && urls != "" {
 						desc.URLs = strings.Split(urls, ",")
 					}
 					neighboringLayers = append(neighboringLayers, desc)
@@ -124,7 +124,7 @@ func FromDefaultLabels(hosts RegistryHosts) GetSources {
 			Digest:      target,
 			Annotations: labels,
 		}
-		if targetURLs, ok := labels[targetURLsLabel]; ok {
+		if targetURLs, ok := labels[targetURLsLabel]; ok && targetURLs != "" {
 			targetDesc.URLs = append(targetDesc.URLs, strings.Split(targetURLs, ",")...)
 		}
 
